@@ -62,6 +62,23 @@ type callT struct {
 	want func(tid int) string // expected result when it depends on the salt ("" = use the solo result)
 }
 
+// caseVariant spells one of four built-in rule names with the upper/lower-case pattern given by the bits of n (never
+// all lower case), so that consecutive executions use spellings the process has not seen.
+func caseVariant(n int) string {
+	names := []string{"year2month", "datetime", "include", "required"}
+	name := []byte(names[n%4])
+	bits := n/4 + 1
+	for i := range name {
+		if bits&(1<<uint(i%10)) != 0 && name[i] >= 'a' && name[i] <= 'z' {
+			name[i] -= 32
+		}
+	}
+	if string(name) == names[n%4] {
+		name[0] -= 32
+	}
+	return string(name)
+}
+
 func freshType() reflect.Type {
 	return reflect.StructOf([]reflect.StructField{
 		{Name: "F", Type: reflect.TypeOf(""), Tag: reflect.StructTag(fmt.Sprintf(`valid:"required|need,to=2~3" salt:"%d"`, salt))},
@@ -91,6 +108,14 @@ func callMenu() []callT {
 		}, func(a []interface{}) string { return errText(valid.Var(a[0], a[1].([]string)...)) },
 			func(t int) string {
 				return fmt.Sprintf(`input "b", explain: regex match is failed, pattern: ^a{%d}$`, salt%900+1)
+			}},
+		// a rule name spelled in a way no earlier execution used (case variants of built-in names): unknown names are
+		// reported, and looking a name up must not write anything other threads read
+		{"Var(unseen spelling of a rule name)", func(t int) []interface{} {
+			return []interface{}{"b", []string{"to=1~3", caseVariant(salt*3 + t)}}
+		}, func(a []interface{}) string { return errText(valid.Var(a[0], a[1].([]string)...)) },
+			func(t int) string {
+				return `valid "` + caseVariant(salt*3+t) + `" is not exist, You can call SetValidFn`
 			}},
 		{"Var(quoted)", func(t int) []interface{} { return []interface{}{"zz", []string{"in=('a,b'/c)|'m,n'", "re='^z,z$'"}} },
 			func(a []interface{}) string { return errText(valid.Var(a[0], a[1].([]string)...)) }, nil},
@@ -510,7 +535,7 @@ func main() {
 	runner.Main(runner.Config{
 		Property:  "C11",
 		Technique: "stateless model checking of concurrent validation calls under a controlled scheduler with sync.Pool answers as choice points; solo-result oracle + Go race detector on every explored schedule",
-		Rule: "case = one harness (cache LRU(512)|LRU(1), cold|pre-warmed; 2-3 threads x 1-2 calls over a 10-call alphabet: Struct / ValidateStruct(tag b) / StructForFn / StructForFns / Struct(slice, groups, global fn) / " +
+		Rule: "case = one harness (cache LRU(512)|LRU(1), cold|pre-warmed; 2-3 threads x 1-2 calls over an 11-call alphabet (incl. a rule name in a spelling no earlier execution used): Struct / ValidateStruct(tag b) / StructForFn / StructForFns / Struct(slice, groups, global fn) / " +
 			"Var with a regex pattern new in every execution / Var with quoted rules / Map / Url / Struct on a struct type new in every execution); every schedule within the preemption+deviation bound is executed on the real code; " +
 			"per call: result = solo result, arguments unmodified; no panic/deadlock; race build: no race report; transitions = scheduling steps; non-trivial = harnesses in which a thread received a pooled object last used by another thread",
 		Assumptions: []string{"sequential consistency for race-free executions; race freedom checked by the race detector per schedule (happens-before edges inside the standard library's own pools are real and may hide a race: false negatives only)",
